@@ -1,10 +1,10 @@
 # -*- coding: utf-8 -*-
-from concurrent.futures import Future
 from threading import Lock
 from functools import partial
 from collections import namedtuple
 
 from more_executors._impl.common import (
+    _OutputFuture,
     copy_future_exception,
     try_set_result,
 )
@@ -36,7 +36,7 @@ def maketuple(value):
 class Zipper(object):
     def __init__(self, fs):
         self.fs = list(fs)
-        self.out = Future()
+        self.out = _OutputFuture()
         self.done = False
         self.lock = Lock()
         self.count_remaining = len(self.fs)
